@@ -578,15 +578,17 @@ class XPathContext:
 
     def iter_followings(self) -> Iterator[ta.ChildNodeType]:
         """Iterator for 'following' forward axis."""
-        if isinstance(self.item, ElementNode):
+        if isinstance(self.item, XPathNode) and \
+                not isinstance(self.item, (AttributeNode, NamespaceNode, DocumentNode)):
             status = self.item, self.axis
             self.axis = 'following'
 
-            descendants = set(self.item.iter_descendants())
+            descendants = set(self.item.iter_descendants()) \
+                if isinstance(self.item, ElementNode) else set()
             position = self.item.position
 
             root = self.item
-            while isinstance(root.parent, ElementNode) and root is not self.root:
+            while root.parent is not None and root is not self.root:
                 root = root.parent
 
             for item in root.iter_descendants(with_self=False):
